@@ -554,7 +554,7 @@ fn sub_aug(_tier: Tier) -> Sub {
     Sub::new(
         "augmentation-strings",
         n * 5 * 2 * 2 * 2,
-        "every augmentation string over {z,L,P,R,S} of length <= 4 (781) x {.debug_frame v1/3/4, .eh_frame v1/3} x 32/64-bit x LE/BE x address size 4/8, L = pcrel|sdata4, P = indirect|pcrel|sdata4, R = pcrel|sdata4: well-formed strings (\"\" or z + distinct letters) must parse with exactly the flagged fields and their FDEs must decode; ill-formed strings only must not panic",
+        "every augmentation string over {z,L,P,R,S} of length <= 4 (781) x {.debug_frame v1/3/4, .eh_frame v1/3} x 32/64-bit x LE/BE x address size 4/8, L = pcrel|sdata4, P = indirect|pcrel|sdata4, R = pcrel|sdata4: well-formed strings (\"\" or z + distinct letters) must parse with exactly the flagged fields and their FDEs (whose augmentation data carries 0, 2 or 5 bytes beyond what the letters define, to be skipped) must decode; ill-formed strings only must not panic",
         move |ctx, i| {
             let mut mx = Mix(i);
             let si = mx.take(n);
@@ -578,6 +578,8 @@ fn sub_aug(_tier: Tier) -> Sub {
             let mut f = FdeSpec::simple(co.off, 0x2000, 0x40, vec![Insn::AdvanceLoc(1), Insn::Nop], addr as usize);
             f.lsda = Ptr::Target(0x9000);
             f.fmt64 = !fmt64;
+            // 0, 2 or 5 bytes of FDE augmentation data beyond what the letters define
+            f.aug_extra = [0usize, 2, 5][((si + version as u64 + fmt64 as u64) % 3) as usize];
             let fo = b.fde(&f, &c);
             let bytes = b.e.buf.clone();
             let case = || format!("{:?} v{} addr{} {} fmt64={} aug={:?} section={}", kind, version, addr, if big { "BE" } else { "LE" }, fmt64, String::from_utf8_lossy(&s), mcx::hex(&bytes));
